@@ -683,7 +683,7 @@ pub fn miri_walks(seed: u64) -> Report {
 
 /// Parent: shard the scheduled runs over child processes.
 pub fn run(ctx: &Ctx) -> Report {
-    let total = ctx.cases(3000, 150_000);
+    let total = ctx.cases(20_000, 1_000_000);
     let procs = ctx.jobs.max(1);
     let per = (total + procs - 1) / procs;
     let exe = std::env::current_exe().expect("current exe");
@@ -743,7 +743,7 @@ pub fn run(ctx: &Ctx) -> Report {
         let _ = fs::remove_file(&out);
     }
     // real-thread stress in this process
-    let nstress = ctx.cases(300, 5000);
+    let nstress = ctx.cases(600, 5000);
     stress(ctx.seed, nstress, &mut total_rep);
     total_rep
 }
